@@ -8,14 +8,16 @@ import Fbr.Lemmas.OvlSimRO
 import Fbr.Lemmas.OvlOps
 import Fbr.Lemmas.OvlCreate
 import Fbr.Lemmas.OvlRm
+import Fbr.Lemmas.OvlRmdirB
+import Fbr.Lemmas.OvlLink
 
 namespace Fbr.Ovl
 
 /-! ### whole operations -/
 
-/-- the operations whose effect on the cache invariant is proved: every non-modifying one, the
-    six that copy up and change attributes, the four that create an entry, and unlink
-    (everything except link and rmdir) -/
+/-- the operations whose effect on the cache invariant was proved first: every non-modifying one,
+    the six that copy up and change attributes, the four that create an entry, and unlink
+    (everything except link and rmdir; for ALL operations see `runOp_cons_all`) -/
 def Op.covered : Op → Bool
   | .open .. | .write .. | .chmod .. | .truncate .. | .setx .. | .rmx .. => true
   | .create .. | .mkdir .. | .mknod .. | .symlink .. | .unlink .. => true
@@ -86,5 +88,23 @@ theorem run_cons (ops : List Op) (hops : ∀ op ∈ ops, op.covered = true) :
   | cons op rest ih =>
     intro s hs
     exact ih (fun o ho => hops o (List.mem_cons_of_mem _ ho)) _ ((runOp_cons op (hops op (by simp))).st hs)
+
+/-- EVERY operation (all 19 kinds) keeps the forest a valid cache of the disk, whether it
+    succeeds or fails -/
+theorem runOp_cons_all (op : Op) : Triple Consistent (runOp op) (fun _ => Consistent) Consistent := by
+  by_cases h : op.covered = true
+  · exact runOp_cons op h
+  · cases op with
+    | link src dst => exact runOp_link_cons src dst
+    | rmdir p => exact runOp_rmdir_cons p
+    | «open» p fl => cases fl <;> simp [Op.covered] at h
+    | _ => simp [Op.covered, Op.isModifying] at h
+
+theorem run_cons_all (ops : List Op) : ∀ s, Consistent s → Consistent (run s ops) := by
+  induction ops with
+  | nil => exact fun _ h => h
+  | cons op rest ih =>
+    intro s hs
+    exact ih _ ((runOp_cons_all op).st hs)
 
 end Fbr.Ovl
